@@ -133,7 +133,7 @@ def make_merge_chunks(base, *diffs, **kwargs):
     chunks = make_chunks(boundaries, split_diffs)
 
     # Some sanity checking
-    if base or split_diffs:
+    if base or any(split_diffs):
         assert chunks, 'no merge chunks produced'
         assert chunks[0][0] == 0, 'invalid range start of first merge chunk'
         assert chunks[-1][1] == len(base), 'invalid range end of final merge chunk'
